@@ -64,6 +64,56 @@ class FakeTask:   # stands for a CompilationTask: only the attributes the server
         self.max_logging_depth = -1
 
 
+class EmptyLike:
+    """a result object that is falsy but not None (len 0), like an operation-free Circuit"""
+
+    def __init__(self, v):
+        self.v = v
+
+    def __len__(self):
+        return 0
+
+
+def res_payload(v):
+    """result tag -> payload.  Tags 0-5 are falsy-but-not-None values (ServerMailbox.ready must test `is not None`),
+    6.. are ordinary truthy tuples."""
+    if v == 0:
+        return 0
+    if v == 1:
+        return ''
+    if v == 2:
+        return ()
+    if v == 3:
+        return []
+    if v == 4:
+        return EmptyLike(4)
+    if v == 5:
+        from bqskit.ir.circuit import Circuit
+        return Circuit(1)               # no operations: len() == 0
+    return ('res', v)
+
+
+def res_tag(p):
+    from bqskit.ir.circuit import Circuit
+    if isinstance(p, tuple) and p[:1] == ('res',):
+        return p[1]
+    if isinstance(p, EmptyLike):
+        return p.v
+    if isinstance(p, Circuit) and p.num_operations == 0:
+        return 5
+    if isinstance(p, bool):
+        return 'BAD'
+    if isinstance(p, int) and p == 0:
+        return 0
+    if p == '' and isinstance(p, str):
+        return 1
+    if p == () and isinstance(p, tuple):
+        return 2
+    if p == [] and isinstance(p, list):
+        return 3
+    return 'BAD'
+
+
 NW = 2   # employees of the server under test
 
 
@@ -123,7 +173,7 @@ class Impl:
             elif k == K_CANCEL:
                 s.handle_message(M.CANCEL, D.CLIENT, self.conn(ev[1]), uuid.UUID(int=ev[2]))
             elif k == K_RESULT:
-                r = RuntimeResult(RuntimeAddress(-1, ev[1], 0), ('res', ev[2]), 0)
+                r = RuntimeResult(RuntimeAddress(-1, ev[1], 0), res_payload(ev[2]), 0)
                 s.handle_message(M.RESULT, D.BELOW, self.wconns[0], r)
             elif k == K_ERROR:
                 s.handle_message(M.ERROR, D.BELOW, self.wconns[0], (ev[1], f'E{ev[2]}'))
@@ -168,7 +218,7 @@ class Impl:
                 continue
             c = conn.idx
             if msg == M.RESULT:
-                outs.append(('result', c, p[1]) if isinstance(p, tuple) and p[:1] == ('res',) else ('result', c, 'BAD'))
+                outs.append(('result', c, res_tag(p)))
             elif msg == M.STATUS:
                 outs.append(('status', c, int(p)) if isinstance(p, CompilationStatus) else ('status', c, 'BAD'))
             elif msg == M.CANCEL:
@@ -193,7 +243,7 @@ class Impl:
             sorted([c.idx, sorted(t.int for t in ts)] for c, ts in s.clients.items()),
             sorted([t.int, mb, c.idx] for t, (mb, c) in s.tasks.items()),
             sorted([mb, t.int] for mb, t in s.mailbox_to_task_dict.items()),
-            sorted([mb, -1 if b.result is None else b.result[1], int(b.client_waiting)] for mb, b in s.mailboxes.items()),
+            sorted([mb, -1 if b.result is None else res_tag(b.result), int(b.client_waiting)] for mb, b in s.mailboxes.items()),
             s.mailbox_counter,
             sorted(c.idx for c in self.conns.values() if c.closed),
             1,
@@ -415,9 +465,52 @@ def classify(hist, i, spec_before, exp, got):
     return {'call': 'handle_' + KNAMES[k], 'symptom': 'crash' if crashed else 'wrong-answer'}, '-'
 
 
+def tables_broken(tab):
+    """invariant of the server tables, evaluated on the implementation alone (no model): every
+    mailbox_to_task_dict entry points to a tasks entry with that mailbox; every mailbox is in
+    mailbox_to_task_dict; every open id of a client is in tasks with that connection and has a mailbox."""
+    clients, tasks, m2t, boxes = tab[0], tab[1], tab[2], tab[3]
+    tk = {t: (mb, c) for t, mb, c in tasks}
+    for mb, t in m2t:
+        if t not in tk or tk[t][0] != mb:
+            return f'mailbox_to_task_dict[{mb}] = {t} has no matching tasks entry'
+    mm = {mb for mb, _ in m2t}
+    for b in boxes:
+        if b[0] not in mm:
+            return f'mailbox {b[0]} is not in mailbox_to_task_dict'
+    bx = {b[0] for b in boxes}
+    conns = {c for c, _ in clients}
+    for c, ts in clients:
+        for t in ts:
+            if t not in tk or tk[t][1] != c or tk[t][0] not in bx:
+                return f'open id {t} of client {c} has no tasks entry / mailbox'
+    for t, (mb, c) in tk.items():
+        if c not in conns:
+            return f'tasks[{t}] belongs to connection {c} which is not registered'
+    return None
+
+
 def find_violations(hist, impl_obs, impl_exc, model_obs, mode, tag):
     """model correspondence (vs the model of `mode`) + property oracle; returns the violations of one history"""
     out = []
+    wf_all = True
+    sp0 = Spec()
+    for i, ev in enumerate(hist):
+        if not sp0.wf(ev):
+            wf_all = False
+            break
+        sp0.step(ev)
+        tab = impl_obs[i][1]
+        if tab is None:
+            break
+        bad = tables_broken(tab)
+        if bad:
+            out.append(dict(
+                sig={'call': 'handle_' + KNAMES[ev[0]], 'symptom': 'tables-inconsistent'},
+                case=dict(history=hist[:i + 1], tag=tag), exp='tables invariant (C13_tables_inv)', obs=dict(tables=tab, broken=bad),
+                what=f'after {KNAMES[ev[0]]}: {bad} - a later ERROR / LOG / RESULT for it raises KeyError in the server loop',
+                kind='input', corr=None))
+            break
     # (1) correspondence
     for i, ((io, it), (mo, mt)) in enumerate(zip(impl_obs, model_obs)):
         if norm(io) != norm(mo) or norm(it) != norm(mt):
@@ -554,6 +647,10 @@ async def tree_node(spec):
     if spec['kids']:
         if spec['mode'] == 'map':
             vals = await rt.map(tree_node, spec['kids'])
+        elif spec['mode'] == 'maps':
+            # one map call per child: the 2nd, 3rd ... call gets a fresh worker mailbox id each time
+            for k in spec['kids']:
+                vals += await rt.map(tree_node, [k])
         else:
             futs = [rt.submit(tree_node, k) for k in spec['kids']]
             for f in futs:
@@ -780,10 +877,10 @@ def gen_tree(rng, depth, exc, raise_depth):
         kids = []
         if d < depth:
             nk = rng.randint(1, 3)
-            pk = rng.randrange(nk) if on_path else -1
+            pk = (rng.choice([nk - 1, rng.randrange(nk)]) if on_path else -1)   # favour a later (2nd/3rd) child
             kids = [build(d + 1, on_path and i == pk) for i in range(nk)]
         mine = exc if (on_path and d == raise_depth) else None
-        return dict(kids=kids, mode=rng.choice(['map', 'submit']), exc=mine,
+        return dict(kids=kids, mode=rng.choice(['map', 'submit', 'maps', 'maps']), exc=mine,
                     when=rng.choice(['before', 'after']), ret=rng.randint(0, 99))
     return build(0, exc is not None)
 
@@ -883,13 +980,14 @@ def client_scenario(ctx, idx, avoid_d4=False):
             continue
         if op == 'submit' or not tids:
             tree = gen_tree(rng, rng.randint(0, 1), None, 0)
+            want_data = rng.random() < 0.5      # False: the result is the bare output Circuit - no operations, so falsy
             try:
-                t = comps[i].submit(Circuit(1), [make_tree_pass(tree)], request_data=True)
+                t = comps[i].submit(Circuit(1), [make_tree_pass(tree)], request_data=want_data)
             except Exception as e:  # noqa
                 log.append(('submit', i, None, 'EXC', f'{type(e).__name__}: {e}'))
                 alive[i] = False
                 continue
-            tids.append([t, i, tree, 'open'])
+            tids.append([t, i, tree, 'open', want_data])
             log.append(('submit', i, len(tids) - 1, 'ok', None))
             continue
         y = rng.random()
@@ -924,7 +1022,8 @@ def client_scenario(ctx, idx, avoid_d4=False):
                 got = ('cancel', comps[i].cancel(tid))
             else:
                 r = comps[i].result(tid)
-                got = ('result', r[1]['tree'])
+                got = ('result', r[1]['tree'] if isinstance(r, tuple) else
+                       ('empty-circuit' if isinstance(r, Circuit) and r.num_operations == 0 else 'BAD'))
         except RuntimeError as e:
             got = ('raised', str(e.__cause__ or e))
             alive[i] = False
@@ -947,8 +1046,8 @@ def client_scenario(ctx, idx, avoid_d4=False):
                 rec[3] = 'cancelled'
         else:
             if mine_open:
-                ok = got == ('result', tree_value(rec[2]))
-                exp = ('result', tree_value(rec[2]))
+                exp = ('result', tree_value(rec[2]) if rec[4] else 'empty-circuit')
+                ok = got == exp
                 rec[3] = 'delivered'
             else:
                 # 'Unknown task.' is queued and the connection closed in the same handler: send_outgoing skips
